@@ -97,8 +97,12 @@ impl Kinematics for OPWKinematics {
             let ik = self.inverse_intern(&shifted);
             // Self::dump_shifted_solutions(d, &ik);
             if solutions.is_empty() {
-                // Unshifted version that comes first is always included into results
-                solutions.extend(&ik);
+                // Unshifted version that comes first is always included into results. If it
+                // found nothing, solutions of a shifted pose are only taken when they also
+                // reproduce the requested (unshifted) pose within the stated tolerances.
+                let unshifted = d == SINGULARITY_SHIFTS[0];
+                solutions.extend(ik.iter().filter(|s| unshifted ||
+                    compare_poses(&pose, &self.forward(s), DISTANCE_TOLERANCE, ANGULAR_TOLERANCE)));
             }
 
             for s_idx in 0..ik.len() {
